@@ -80,6 +80,15 @@ def native_linetable(co):
     return co.co_lnotab
 
 
+def _istr(v):
+    """decimal text of an integer; hexadecimal ("0x...") for the huge ones (decimal conversion is quadratic, and
+    interpreters with the int->str digit limit refuse it above 4300 digits)"""
+    v = int(v)
+    if -(1 << 13000) < v < (1 << 13000):
+        return str(v)
+    return ("-0x%x" % -v) if v < 0 else ("0x%x" % v)
+
+
 def canon(v, memo=None):
     """Canonical JSON-able form of a native value of THIS interpreter."""
     if v is None:
@@ -95,8 +104,8 @@ def canon(v, memo=None):
     t = type(v)
     if t in int_types:
         if PY2 and t is not int:
-            return ["i", str(int(v)), "L"]      # Python 2 long: a different kind from int
-        return ["i", str(int(v))]
+            return ["i", _istr(v), "L"]      # Python 2 long: a different kind from int
+        return ["i", _istr(v)]
     if t is float:
         return ["f", _fbits(v)]
     if t is complex:
@@ -148,8 +157,8 @@ def uncanon(c):
         return StopIteration
     if k == "i":
         if PY2 and len(c) > 2:
-            return long(c[1])      # noqa
-        return int(c[1])
+            return long(c[1], 0)      # noqa
+        return int(c[1], 0)
     if k == "f":
         return struct.unpack(">d", unhx(c[1]))[0]
     if k == "c":
@@ -728,9 +737,9 @@ def xcanon(v, py2file):
         return ["t", hx(raw)]
     t = type(v)
     if isinstance(v, x.cross_types.LongTypeForPython3):
-        return ["i", str(int(v)), "L"]      # the Python-2 long kind: wrong for a Python 3 file, whatever the value
+        return ["i", _istr(v), "L"]      # the Python-2 long kind: wrong for a Python 3 file, whatever the value
     if t is int:
-        return ["i", str(int(v))]
+        return ["i", _istr(v)]
     if t is float:
         return ["f", _fbits(v)]
     if t is complex:
